@@ -142,7 +142,10 @@ def tasks(ctx, quick):
         c = conditions(rng)
         if i % 2:
             c["rests"] = rng.sample([0, 1, 24, 360, 0.5, 1e3, 5], rng.randint(2, 4))       # as the caller wrote them: any order
+        abundance = "IAEA1987" if i % 3 == 1 else None
         items.append({"id": "t%d" % len(items), "kind": "sample", "formula": forms[i % len(forms)] if i < len(forms) else rng.choice(forms), "cond": c})
+        if abundance:
+            items[-1]["abundance"] = abundance
     return items
 
 
